@@ -8,27 +8,29 @@ P=$1; X=$2
 SRC=/tmp/seed_out/$P
 WT=/var/tmp/cf_${P}_${X}
 OUT=$SRC/$X.confirm.json
+PATCH=$SRC/$X.patch; [ -s $SRC/$X.rebased.patch ] && PATCH=$SRC/$X.rebased.patch
+DEMO=$SRC/${X}_demo.py; [ -s $SRC/${X}_demo.rebased.py ] && DEMO=$SRC/${X}_demo.rebased.py
 rm -rf "$WT"; git -C /repo worktree prune
 git -C /repo worktree add --detach "$WT" HEAD -q || { echo "{\"ok\": false, \"why\": \"worktree\"}" > "$OUT"; exit 1; }
 cd "$WT"
 applied=plain
-if ! git apply "$SRC/$X.patch" 2>/dev/null; then
+if ! git apply "$PATCH" 2>/dev/null; then
   applied=3way
-  if ! git apply --3way "$SRC/$X.patch" 2>/tmp/cf_${P}_${X}.err; then
+  if ! git apply --3way "$PATCH" 2>/tmp/cf_${P}_${X}.err; then
     echo "{\"ok\": false, \"why\": \"patch does not apply to current HEAD\"}" > "$OUT"
     cd /; git -C /repo worktree remove --force "$WT"; exit 1
   fi
   git reset -q
 fi
 git diff > "$WT/.seed.patch"
-demo_with=$( /venv/bin/python "$SRC/${X}_demo.py" >/tmp/cf_${P}_${X}.with.log 2>&1; echo $? )
+demo_with=$( /venv/bin/python "$DEMO" >/tmp/cf_${P}_${X}.with.log 2>&1; echo $? )
 file_with=$(grep -o "$WT/histogrammar/__init__.py" /tmp/cf_${P}_${X}.with.log | head -1)
 /venv/bin/python -m pytest -q -p no:cacheprovider --timeout=900 --continue-on-collection-errors tests/ > /tmp/cf_${P}_${X}.tests.log 2>&1
-summary=$(tail -1 /tmp/cf_${P}_${X}.tests.log)
+summary=$(grep -E "passed|failed" /tmp/cf_${P}_${X}.tests.log | tail -1)
 passed=$(echo "$summary" | grep -o '[0-9]* passed' | grep -o '[0-9]*')
 failed=$(echo "$summary" | grep -o '[0-9]* failed' | grep -o '[0-9]*')
 git checkout -q -- .
-demo_without=$( /venv/bin/python "$SRC/${X}_demo.py" >/tmp/cf_${P}_${X}.without.log 2>&1; echo $? )
+demo_without=$( /venv/bin/python "$DEMO" >/tmp/cf_${P}_${X}.without.log 2>&1; echo $? )
 ok=false
 if [ "$demo_with" != "0" ] && [ "$demo_without" = "0" ] && [ "${passed:-0}" = "79" ] && [ "${failed:-0}" = "16" ]; then ok=true; fi
 cp "$WT/.seed.patch" "$SRC/$X.current.patch" 2>/dev/null
